@@ -931,6 +931,61 @@ func ruleMapLookupVerified(r *Report) {
 				}
 			}
 		}
+		// a probe the mapper cannot map (longer than its width: MapBytes panics) is absent, not a reason to panic
+		if k == "sstables.MapKeyIndex.Get" {
+			gkey := rule + "/" + k + "/probe-length-guarded"
+			var maps []Site
+			eachInstr(fn, func(s Site) {
+				if c, ok := s.Instr.(*ssa.Call); ok && c.Call.IsInvoke() && c.Call.Method.Name() == "MapBytes" {
+					maps = append(maps, s)
+				}
+			})
+			guarded := len(maps) > 0
+			for _, m := range maps {
+				g := false
+				for _, b := range liveBlocks(fn) {
+					if b == m.Block || !reachFrom(b, nil)[m.Block] {
+						continue
+					}
+					cnd, tS, fS, _, _, ok := effCond(b)
+					if !ok {
+						continue
+					}
+					// one side of the test leaves the function (the probe is answered without being mapped)
+					leaves := false
+					for _, su := range []*ssa.BasicBlock{tS, fS} {
+						if _, isRet := su.Instrs[len(su.Instrs)-1].(*ssa.Return); isRet && !reachFrom(su, nil)[m.Block] {
+							leaves = true
+						}
+					}
+					if !leaves {
+						continue
+					}
+					if valueDependsOn(cnd, func(x ssa.Value) bool {
+						c, isC := x.(*ssa.Call)
+						if !isC {
+							return false
+						}
+						bi, isB := c.Call.Value.(*ssa.Builtin)
+						if !isB || bi.Name() != "len" {
+							return false
+						}
+						po := paramOrigin(c.Call.Args[0])
+						return po != nil && po.Name() == "key"
+					}) {
+						g = true
+					}
+				}
+				if !g {
+					guarded = false
+				}
+			}
+			if guarded {
+				r.OK(rule, gkey, maps[0].Pos(), "the probe's length is tested before it is mapped")
+			} else {
+				r.Bad(rule, gkey, fn.Pos(), "the probe key is handed to the fixed-width mapper unchecked: Get(\"abcde\") on a Byte4KeyMapper table panics (data length is too large) where the other loaders answer not-found; Contains panics whenever the bloom filter lets such a probe through")
+			}
+		}
 		if cmp {
 			r.OK(rule, key, lookups[0].Pos(), "the stored key is compared with the requested key")
 		} else {
